@@ -343,15 +343,19 @@ class ModelCacheMixin:
 
     def min(self, e, extra_constraints=(), signed=False, exact=None):
         cached = []
-        if e.hash() in self._eval_exhausted or e.hash() in self._min_exhausted:
+        # The cached models only answer the query they were collected for: with extra constraints a value of e may be
+        # feasible through a model that is not cached, and an unsigned optimum says nothing about the signed one.
+        if len(extra_constraints) == 0 and (
+            e.hash() in self._eval_exhausted or e.hash() in (self._min_signed_exhausted if signed else self._min_exhausted)
+        ):
             # we set allow_unconstrained to False because we expect all returned values for e are returned by Z3,
             # instead of some arbitrarily assigned concrete values.
-            cached = self._get_solutions(e, extra_constraints=extra_constraints, allow_unconstrained=False)
+            cached = self._get_solutions(e, allow_unconstrained=False)
 
         if len(cached) > 0:
 
             def signed_key(v):
-                return v if v >= 0 else v + 2 ** len(e)
+                return v if v < 2 ** (len(e) - 1) else v - 2 ** len(e)
 
             return min(cached, key=signed_key if signed else lambda v: v)
 
@@ -362,8 +366,10 @@ class ModelCacheMixin:
 
     def max(self, e, extra_constraints=(), signed=False, exact=None):
         cached = []
-        if e.hash() in self._eval_exhausted or e.hash() in self._max_exhausted:
-            cached = self._get_solutions(e, extra_constraints=extra_constraints, allow_unconstrained=False)
+        if len(extra_constraints) == 0 and (
+            e.hash() in self._eval_exhausted or e.hash() in (self._max_signed_exhausted if signed else self._max_exhausted)
+        ):
+            cached = self._get_solutions(e, allow_unconstrained=False)
 
         if len(cached) > 0:
 
